@@ -1,8 +1,20 @@
 #!/usr/bin/env python3
-"""offline setup: build the Lean library (all models, proofs, property theorems) and the model driver"""
+"""offline setup: build the model driver and, as far as it goes, the whole Lean library.
+
+Only a driver that does not build is a setup failure.  The property theorems (Gpc.Props.*) are re-checked by every
+check itself against tables and skeletons regenerated from /repo's current sources; if /repo has changed since the
+generated files were committed, some of them may not build here - that is for the property's check to report, not a
+reason to run no check at all."""
 import os
 import subprocess
 import sys
 ROOT = os.path.dirname(os.path.dirname(os.path.abspath(__file__)))
-r = subprocess.run(["lake", "build", "Gpc", "gpcmodel"], cwd=os.path.join(ROOT, "lean"))
-sys.exit(r.returncode)
+LEAN = os.path.join(ROOT, "lean")
+r = subprocess.run(["lake", "build", "gpcmodel"], cwd=LEAN)
+if r.returncode != 0:
+    sys.exit(r.returncode)
+r2 = subprocess.run(["lake", "build", "Gpc"], cwd=LEAN)
+if r2.returncode != 0:
+    print("setup: some property theorems do not build against the committed generated files; the checks regenerate "
+          "them from /repo and report per property")
+sys.exit(0)
